@@ -974,12 +974,12 @@ def main(ck):
         if res is None or len(c["table"]) > 400:
             continue
         r = ck.rng.random()
-        if r < (0.3 if ck.tier == "quick" else 0.3):
+        if r < (0.3 if ck.tier == "quick" else 0.1):
             try:
                 d1 = build_grid(c).get_dual()        # a dual nothing has been derived on yet
             except Exception:
                 continue
-            if r < (0.1 if ck.tier == "quick" else 0.12) or (not c["closed"] and r < 0.2):
+            if r < (0.1 if ck.tier == "quick" else 0.04) or (not c["closed"] and r < (0.2 if ck.tier == "quick" else 0.07)):
                 iterate_duals(ck, c, d1, ok, levels=2, stats=self_stats, rng=ck.rng)
             check_consistency(ck, c, d1, ck.rng, stats=self_stats)
     tm["dual_as_grid"] = round(time.time() - t0, 1)
